@@ -27,6 +27,7 @@ EXPLANATION = ('ELEM typed-comparison scan over musicxml_parser; PITCH affine fo
                'agreement of the four duration conversions, cursor directions, chord onset, part reset, tempo update; KEY fifths table and '
                'mode dispatch with the relative-minor rule; KIND abbreviations vs. the chord-symbol regex; FIG assembly order; CONTAIN '
                'exception conversion and the two container branches.')
+EXPLANATION += (' ' + 'ELEM/schema-child and ELEM/schema-attr (sa/xmltags.py, sa/musicxml_schema.py): an inter-procedural, context-sensitive element-tag typing of the reader (find/findall/iteration/child.tag == tests/constructors/self.xml_* fields/string parameters) checks each of the ~86 navigation sites against a transcription of the MusicXML 3.1 schema: the child or attribute named must exist under the element it is read from. STATE/per-object as in C04.')
 TRUSTED = ['ElementTree API types', 'circle-of-fifths / letter oracle', 'constant folding']
 NOT_DECIDED = ['onset/duration values', 'time-signature repair of partial measures', '.text on a possibly missing child (AttributeError) for ill-formed scores - outside the quantifier (well-formed scores)']
 ASSUMPTIONS = []
